@@ -266,8 +266,10 @@ func H_c08_tomap() {
 		T = C
 	}
 	parent := T.Pivots.Parent
-	parent.Active = !nondet_bool("parent-reported-inactive")
-	parent.Reason = "Disconnected"
+	if nondet_bool("parent-reported-inactive") {
+		parent.Active = false
+		parent.Reason = "Disconnected"
+	}
 	info := T.ToMap()
 	verif_assert(T.Pivots.Parent == parent, "describing an agent leaves its parent in place")
 	verif_assert(info["PivotParent"] == parent.NameID, "the description names the agent's parent")
